@@ -283,3 +283,6 @@ def run(ctx):
     # kept on the class would be one hidden resolver shared by every caller of that class
     from .c11 import rule_wiring
     rule_wiring(ctx, "R18.8")
+    # R18.9: a FormatChecker object owns its table from construction on, whatever class it is an instance of
+    from .c16 import rule_formatchecker_owns
+    rule_formatchecker_owns(ctx, "R18.9")
